@@ -1159,7 +1159,7 @@ func (a *action) probeSeek(where string, leaf virtual.Leaf, data []byte) bool {
 		bad := ""
 		switch {
 		case s == virtual.StatusOK && r != nil:
-			if *r < off || *r > size || (off < size && *r >= size) && !allZero(off, size) || !allZero(off, *r) {
+			if *r < off || *r >= size || !allZero(off, *r) {
 				bad = fmt.Sprintf("SEEK_DATA(%d) = %d for a %d byte file", off, *r, size)
 			}
 		case s == virtual.StatusErrNXIO:
